@@ -301,7 +301,7 @@ def build_coq(pid, log, jobs=16):
     pfile = os.path.join(COQ, "Properties", pid + ".v")
     src = strip_coq_comments(open(pfile).read())
     thms = re.findall(r"^\s*Theorem\s+(\w+)", src, re.M)
-    prints = re.findall(r"Print\s+Assumptions\s+(\w+)\s*\.", src)
+    prints = [x.split(".")[-1] for x in re.findall(r"Print\s+Assumptions\s+([\w.]*\w)\s*\.", src)]  # qualified names: last component
     res["theorems"] = thms
     if rc != 0:
         m = re.findall(r'File "([^"]+)", line (\d+)', out)
@@ -585,8 +585,10 @@ def main():
     ev = dict(property_id=pid, tier=tier, seed=seed, level="proof", coverage=cov,
               assumptions=["oracle hypotheses named in the theorem statements (Go standard library behaviour)", "the model is tied to the code only by go2coq tables and the correspondence run recorded here"],
               wall_s=round(time.time() - t0, 1), violations=violations)
-    os.makedirs(os.path.join(VERIF, "evidence"), exist_ok=True)
-    json.dump(ev, open(os.path.join(VERIF, "evidence", pid + ".json"), "w"), indent=1, default=str)
+    # evidence/ describes /repo; a run against a scratch copy (VERIF_REPO, mutation experiments) keeps its record in the work directory
+    evdir = os.path.join(VERIF, "evidence") if os.path.realpath(REPO) == "/repo" else work
+    os.makedirs(evdir, exist_ok=True)
+    json.dump(ev, open(os.path.join(evdir, pid + ".json"), "w"), indent=1, default=str)
     open(os.path.join(work, "check.log"), "w").write("\n".join(log))
     for l in lines:
         print(l)
